@@ -73,6 +73,28 @@ def side_bits(work, model, tier):
     return events, rejects, len(traces)
 
 
+def add_traces(work, model, tier, vals, tiers):
+    """AddModel edges replayed on the code (used by C12, and by C04 for the bytes an in-place add leaves)."""
+    cfg = os.path.join(work, "AddModel.cfg")
+    depth = 2 if tier == "quick" else 3
+    with open(cfg, "w") as f:
+        f.write("SPECIFICATION Spec\nCONSTANTS D = %d\nINVARIANTS WidthBounded SlotDecodes\n"
+                "PROPERTY Isolation\nCHECK_DEADLOCK FALSE\n" % depth)
+    r = vlib.tlc_or_broken("AddModel.tla", cfg, workers=vlib.NCPU, xmx="8g", timeout=1500)
+    model.add("AddModel[D=%d]" % depth, r)
+    edges = set()
+    for fam, grow, w, v, a in EDGE.findall(r["out"]):
+        edges.add("%s %s %s %s %s" % (fam, grow, w, " ".join(re.findall(r"\d+", v)),
+                                      " ".join(re.findall(r"\d+", a))))
+    if len(edges) < 100:
+        raise Broken("AddModel produced too few edges (%d)" % len(edges))
+    efile = os.path.join(work, "edges.txt")
+    with open(efile, "w") as f:
+        f.write("\n".join(sorted(edges)) + "\n")
+    nrand = 3000 if tier == "quick" else 100000
+    return drive(work, tiers, "add", vals, nrand, extra=efile), len(edges), depth, nrand
+
+
 def rt_key(ev):
     e = ev.get("e")
     if e == "RT":
@@ -144,6 +166,8 @@ def check_rt(pid, tier):
             traces += drive(work, tiers_for(tier), "sgn", vals, 300 if tier == "quick" else 30000, shards=2)
         else:
             traces += drive(work, tiers_for(tier), "bits", vals, 2000 if tier == "quick" else 100000, shards=4)
+            # an in-place add is a producer of tagged bytes too: they must be the documented encoding
+            traces += add_traces(work, model, tier, vals, ["pinned"])[0]
         events, rejects, _ = vlib.validate(traces, "ScalarTrace.tla", "ScalarTrace.cfg", timeout=3000)
         neg = vlib.negative_control(traces[0], "ScalarTrace.tla", "ScalarTrace.cfg",
                                     neg_rt_val if pid == "C01" else neg_rt)
@@ -197,24 +221,8 @@ def check_C12(tier):
     try:
         vals, r = gen_values(work, 300)
         model.add("ScalarGen", r)
-        cfg = os.path.join(work, "AddModel.cfg")
-        depth = 2 if tier == "quick" else 3
-        with open(cfg, "w") as f:
-            f.write("SPECIFICATION Spec\nCONSTANTS D = %d\nINVARIANTS WidthBounded SlotDecodes\n"
-                    "PROPERTY Isolation\nCHECK_DEADLOCK FALSE\n" % depth)
-        r = vlib.tlc_or_broken("AddModel.tla", cfg, workers=vlib.NCPU, xmx="8g", timeout=1500)
-        model.add("AddModel[D=%d]" % depth, r)
-        edges = set()
-        for fam, grow, w, v, a in EDGE.findall(r["out"]):
-            edges.add("%s %s %s %s %s" % (fam, grow, w, " ".join(re.findall(r"\d+", v)),
-                                          " ".join(re.findall(r"\d+", a))))
-        if len(edges) < 100:
-            raise Broken("AddModel produced too few edges (%d)" % len(edges))
-        efile = os.path.join(work, "edges.txt")
-        with open(efile, "w") as f:
-            f.write("\n".join(sorted(edges)) + "\n")
-        nrand = 3000 if tier == "quick" else 100000
-        traces = drive(work, tiers_for(tier), "add", vals, nrand, extra=efile)
+        traces, nedges, depth, nrand = add_traces(work, model, tier, vals, tiers_for(tier))
+        edges = range(nedges)
         events, rejects, _ = vlib.validate(traces, "ScalarTrace.tla", "ScalarTrace.cfg")
         neg = vlib.negative_control(traces[0], "ScalarTrace.tla", "ScalarTrace.cfg", neg_add)
         classes, samples = vlib.classes_of(traces, rt_key)
